@@ -308,6 +308,22 @@ fn check_inplace(rep: &mut Report) {
                 let r = vmon::catch(|| dasp_slice::zip_map_in_place(&mut a, &b, |x, y| [x[0] + y[1] as f32, x[1] - y[0] as f32]));
                 judge(rep, "zip_map_in_place", la, lb, r, &a, &before, &want, &c("zip_map"));
             }
+            // zip_map_in_place between frame types of DIFFERENT channel counts (2 vs 4 and 2 vs
+            // mono): what must match is the number of frames, whatever the sample counts are
+            {
+                let mut a = mk_f(la, 0);
+                let b: Vec<[i16; 4]> = (0..lb).map(|i| <[i16; 4]>::from_fn(|c| i16::distinct((4 * i + c) as u64 + 70))).collect();
+                let before = a.clone();
+                let want: Vec<FF> = before.iter().zip(&b).map(|(x, y)| [x[0] + y[3] as f32, x[1] - y[2] as f32]).collect();
+                let r = vmon::catch(|| dasp_slice::zip_map_in_place(&mut a, &b, |x, y| [x[0] + y[3] as f32, x[1] - y[2] as f32]));
+                judge(rep, "zip_map_in_place_2ch_with_4ch", la, lb, r, &a, &before, &want, &c("zip_map24"));
+                let mut a = mk_f(la, 0);
+                let b: Vec<i16> = (0..lb).map(|i| i16::distinct(i as u64 + 90)).collect();
+                let before = a.clone();
+                let want: Vec<FF> = before.iter().zip(&b).map(|(x, y)| [x[0] + *y as f32, x[1]]).collect();
+                let r = vmon::catch(|| dasp_slice::zip_map_in_place(&mut a, &b, |x, y| [x[0] + y as f32, x[1]]));
+                judge(rep, "zip_map_in_place_2ch_with_mono", la, lb, r, &a, &before, &want, &c("zip_map21"));
+            }
             // add_in_place (unsigned destination, signed source: re-centred addition)
             {
                 let mut a = mk_u(la, 0);
